@@ -1988,14 +1988,26 @@ def relative_position_angle(alpha1, delta1, alpha2, delta2):
     ):
         raise TypeError("Invalid input types")
     da = alpha1 - alpha2
-    da = da.rad()
+    da = da()
+    # Bring the difference to the +/-180 degrees range (exactly), so that a
+    # small difference across the 0/360 seam keeps its accuracy
+    if da > 180.0:
+        da -= 360.0
+    elif da < -180.0:
+        da += 360.0
+    da = radians(da)
     d1 = delta1.rad()
     d2 = delta2.rad()
     # Meeus' tan(p) = sin(da) / (cos(d2) * tan(d1) - sin(d2) * cos(da)), with
     # both terms multiplied by cos(d1) and the denominator written so that
-    # nothing cancels when the two bodies are close to each other
-    dd = (delta1 - delta2).rad()
-    x = sin(dd) + 2.0 * sin(d2) * cos(d1) * sin(da / 2.0) ** 2
+    # nothing cancels, neither for bodies close to each other nor for bodies
+    # almost opposite in the sky
+    if cos(da) >= 0.0:
+        dd = (delta1 - delta2).rad()
+        x = sin(dd) + 2.0 * sin(d2) * cos(d1) * sin(da / 2.0) ** 2
+    else:
+        ds = (delta1 + delta2).rad()
+        x = sin(ds) - 2.0 * sin(d2) * cos(d1) * cos(da / 2.0) ** 2
     p = atan2(cos(d1) * sin(da), x)
     p = Angle(p, radians=True)
     return p
